@@ -207,6 +207,27 @@ def main(n: int):
         gate.local_rz(0.5, z1)
         gate.local_rz(0.25, d)
 """, [(0,), (2,)]),
+    # measurement results that are kept: carried through a loop, handed to a subroutine, returned
+    ("""
+@move
+def keep(r, z: grid.Grid[Any, Any]):
+    gate.local_r(0.25, 0.5, z)
+    return r
+
+@move
+def main(n: int):
+    z0 = spec.get_static_trap(zone_id="traps")
+    z1 = spec.get_static_trap(zone_id="aux")
+    syndrome = measure.measure((z1,))
+    gate.top_hat_cz(z0, 1.0, 2.0)
+    for i in range(n):
+        gate.local_rz(0.5, z1)
+        syndrome = measure.measure((z1,))
+        gate.global_r(0.25, 0.5)
+    kept = keep(syndrome, z1)
+    gate.global_rz(0.125)
+    return kept
+""", [(0,), (2,)]),
     # the same through a subroutine entered repeatedly
     ("""
 @move
